@@ -4,6 +4,8 @@ package list
 
 import (
 	"context"
+	fslist "github.com/google/osv-scalibr/extractor/filesystem/list"
+	salist "github.com/google/osv-scalibr/extractor/standalone/list"
 
 	"github.com/google/osv-scalibr/detector"
 	scalibrfs "github.com/google/osv-scalibr/fs"
@@ -48,4 +50,46 @@ func VerifFilter() {
 		verifrt.Assert(verifrt.Iff(kept, want[i]), "plugin kept iff its requirements are satisfied, order preserved")
 	}
 	verifrt.Assert(k == len(out), "nothing else in the filtered list")
+}
+
+// VerifNames: detector names are unique, every advertised name resolves, and every extractor a
+// detector requires is a name the extractor lists know.
+func VerifNames() {
+	names := make([]string, 0, len(detectorNames))
+	for name := range detectorNames {
+		names = append(names, name)
+	}
+	for i := range names {
+		for j := i + 1; j < len(names); j++ {
+			if names[j] < names[i] {
+				names[i], names[j] = names[j], names[i]
+			}
+		}
+	}
+	verifrt.ObserveInt("names", len(names))
+	name := names[verifrt.Choice("name", len(names))]
+	fns := detectorNames[name]
+	if len(fns) == 0 {
+		// an advertised collection may be empty (e.g. "default")
+		ds, err := DetectorsFromNames([]string{name})
+		verifrt.Assert(err == nil && len(ds) == 0, "every advertised group name resolves to its plugins")
+		return
+	}
+	if _, isPlugin := All[name]; isPlugin {
+		verifrt.Reach("plugin-name")
+		verifrt.Assert(len(fns) == 1, "plugin names are unique")
+		ds, err := DetectorsFromNames([]string{name})
+		verifrt.Assert(err == nil && len(ds) == 1 && ds[0].Name() == name, "resolving a plugin's own name returns that plugin")
+		if err == nil && len(ds) == 1 {
+			for _, req := range ds[0].RequiredExtractors() {
+				_, e1 := fslist.ExtractorFromName(req)
+				_, e2 := salist.ExtractorFromName(req)
+				verifrt.Assert(e1 == nil || e2 == nil, "every extractor a detector requires exists under that name")
+			}
+		}
+	} else {
+		verifrt.Reach("group-name")
+		ds, err := DetectorsFromNames([]string{name})
+		verifrt.Assert(err == nil && len(ds) >= 1 && len(ds) <= len(fns), "every advertised group name resolves to its plugins")
+	}
 }
